@@ -265,7 +265,10 @@ class Gen:
             src += "</if>"
             return {"t": "if", "cases": cases}, src
         # loop
-        name = "lv%d" % (len(env) + 1)
+        # loop variable names of different lengths (the engine matches them by length-limited comparison while walking outwards);
+        # no name is a prefix of another one or of a document key
+        lvl = len(env) + 1
+        name = self.r.choice([["lv1", "row1", "i1"], ["lv2", "item2", "cell_value2"], ["lv3", "x3", "element3"]][lvl - 1]) if lvl <= 3 else "w%d" % lvl
         hasset, setp, settext, cur = 0, {"loop": [], "base": [], "steps": []}, "", doc
         if self.r.random() < 0.12:
             hasset, setp, settext, cur = 1, {"loop": [], "base": U("groups"), "steps": []}, "groups", self.lookup(doc, U("groups"))
